@@ -24,7 +24,7 @@ from vmon.util import derive_rng
 
 LEVEL = "exploration"
 MANIFEST = {
-    "text": "Exhaustive enumeration of boolean predicate trees (all binary shapes with <=3 leaves in quick / <=4 in thorough, every and/or labelling, every leaf-symbol pattern up to renaming so repeated atoms are present, every leaf negation pattern) executed on the real optimizer over a full-factorial table (every valuation of the atoms and every null pattern), in the source context and rotating through 40+ contexts a filter can cross incl. the join legality table and both parquet readers; row-id multisets compared with pandas. Rule-firing monitor proves the push-down / factoring rules really fired.",
+    "text": "Exhaustive enumeration of boolean predicate trees (all binary shapes with <=3 leaves in quick / <=4 in thorough, every and/or labelling, every leaf-symbol pattern up to renaming so repeated atoms are present, every leaf negation pattern) executed on the real optimizer over a full-factorial table (every valuation of the atoms and every null pattern), in the source context and rotating through 40+ contexts a filter can cross incl. the join legality table and both parquet readers; row-id multisets compared with pandas. Rule-firing monitor proves the push-down / factoring rules really fired. Contexts include value-changing casts below the filter, stacked filters whose other predicate is cumulative / shifted, reductions inside predicates over joins, and joins with one-sided suffixes with atoms on the right frame's colliding column.",
     "note": "Trusts pandas' evaluation of predicates and merges; join output order undefined so (rid_left, rid_right) multisets are compared. Symbols are bound to concrete atoms by a seeded assignment (one per tree in quick, three in thorough), not all assignments.",
     "technique": "runtime monitoring: exhaustive bounded predicate enumeration + row-id multiset oracle against pandas; M-rule firing monitor on rewrite_filters / Filter push-down rules",
     "design_ref": "DESIGN.md section 4, C03",
